@@ -20,7 +20,7 @@ from thermosteam.exceptions import UndefinedChemicalAlias, UndefinedPhase
 from vlib.runner import HarnessError
 
 PROPERTY = 'C10'
-RULE = ('Each case draws a universe (1-8 of 16 database chemicals in any order, three ID styles, 0-6 user aliases set '
+RULE = ('Each case draws a universe (1-8 chemicals: 16 database chemicals and 2 user-defined nameless ones in any order, three ID styles, 0-6 user aliases set '
         'through any existing name, 0-3 groups with none/mol/wt compositions incl. zero entries; optional twin universe '
         'with the same IDs but other aliases/groups), streams (Stream in any phase, MultiStream over any non-empty subset '
         'of s/l/g/S/L; imol or imass view; finite flows incl. 0 and negatives) and keys from the grammar name(ID|CAS|'
@@ -59,13 +59,14 @@ REQUIRED_CELLS = {'quick': ['key:ix=S', 'key:ix=M', 'key:pk=sum', 'key:pk=phase'
                             'hist:mirror=phases', 'hist:probe=recv', 'hist:probe=send', 'hist:probe=recv3',
                             'hist:probe=send3', 'hist:xcopy-order=different', 'hist:xcopy-sender-has-extra', 'hist:xcopy-grows=same-pkg',
                             'hist:xcopy-grows=other-pkg', 'hist:api=1', 'hist:api=2', 'key:api=0', 'key:get_data,api=2',
-                            'key:set_data,api=2', 'group:array-reused', 'shared:to=twin', 'shared:to=same', 'shared:to=other'],
+                            'key:set_data,api=2', 'group:array-reused', 'uni:nameless-first', 'uni:nameless-later', 'shared:to=twin', 'shared:to=same', 'shared:to=other'],
                   'thorough': []}
 WALL = {'quick': 540, 'thorough': 3300}
 
 RTOL = 1e-12
 POOL = ['Water', 'Ethanol', 'Methanol', 'Propanol', 'Isopropanol', 'Acetone', 'Propanal', 'Hexane', 'Glycerol',
         'AceticAcid', 'Butanol', 'Octane', 'CO2', 'N2', 'Glucose', 'LacticAcid']
+NAMELESS = ['Yeast', 'Ash']      # user-defined chemicals without formula, common name or IUPAC name
 ALL_PHASES = ['s', 'l', 'g', 'S', 'L']
 _BASE = {}
 
@@ -82,6 +83,9 @@ def setup(ctx):
     for n in POOL:
         if n not in _BASE:
             _BASE[n] = tmo.Chemical(n)
+    if 'Yeast' not in _BASE:
+        _BASE['Yeast'] = tmo.Chemical('Yeast', search_db=False, default=True, phase='s')
+        _BASE['Ash'] = tmo.Chemical('Ash', search_db=False, default=True, phase='l')
 
 
 # ---------------------------------------------------------------------------
@@ -108,7 +112,7 @@ def base_universe(ctx, tag, members, style):
     U.ids = [_mk_id(style, m) for m in members]
     U.cas = [b.CAS for b in bases]
     U.MW = np.array([b.MW for b in bases], float)
-    copies = [b.copy(i, CAS=b.CAS, common_name=b.common_name, iupac_name=b.iupac_name)
+    copies = [b.copy(i, CAS=b.CAS, **{k: getattr(b, k) for k in ('common_name', 'iupac_name') if getattr(b, k)})
               for b, i in zip(bases, U.ids)]
     chems = tmo.Chemicals(copies)
     ctx.call('compile', chems.compile, region=f'n={n}')
@@ -151,6 +155,12 @@ def base_universe(ctx, tag, members, style):
 def build_universe(ch, ctx, tag, members=None, style=None):
     if members is None:
         members = ch.subset(f'{tag}.chems', POOL, 1, 8)
+        # user-defined chemicals without any database name, at any position (also first)
+        for k, m in enumerate(ch.subset(f'{tag}.nameless', NAMELESS, 0, 2)):
+            at = ch.int(f'{tag}.nameless{k}.at', 0, len(members))
+            members.insert(at, m)
+            ctx.cell('uni:nameless'); ctx.cell('uni:nameless-first' if at == 0 else 'uni:nameless-later')
+        members = members[:8]
     if style is None:
         style = ch.choice(f'{tag}.idstyle', ['db', 'db', 'prefixed', 'spaced'])
     U = base_universe(ctx, tag, members, style)
@@ -810,6 +820,8 @@ def op_bulk(ch, ctx, W, label, big):
     for pos in range(U.n):
         atoms.extend(('name', pos, nm) for nm in U.names_of[pos])
     atoms.extend(('group', g) for g in U.gorder)
+    if len(atoms) == 1:     # a single name: tuple m is that name m+1 times, keep the tuples short
+        n = min(n, 60); start = min(start, 60)
     if S.kind == 'M':
         form = ch.choice(f'{label}.form', ['sum', 'pk', 'allp', 'mixed'])
         prow = ch.int(f'{label}.row', 0, len(S.phases) - 1)
